@@ -880,27 +880,24 @@ class FlatSamplerCache:
         return self._flat_sampler
 
 
-def _lanewise_sampler(keyful_sampler, n: int, batch_axes):
-    """Map a keyful sampler over `n` lanes of its (flat, positional) parameters."""
-    in_axes = (0,) + tuple(batch_axes)
+def _lanewise_sampler(keyful_sampler, n: int, arg_axes, kwarg_axes):
+    """Map a keyful sampler over `n` lanes of its positional and keyword parameters."""
 
     def lanewise(key, *args, sample_shape=(), **kwargs):
         # Staged as one call (like the samplers themselves), so that both new-style
         # and legacy uint32 keys are accepted at run time.
         @jax.jit
-        def run(key, *args):
+        def run(key, args, kwargs):
             keys = jrand.split(key, n)
             lanes = jax.vmap(
-                lambda k, *a: keyful_sampler(
-                    k, *a, sample_shape=sample_shape, **kwargs
-                ),
-                in_axes=in_axes,
-            )(keys, *args)
+                lambda k, a, kw: keyful_sampler(k, *a, sample_shape=sample_shape, **kw),
+                in_axes=(0, arg_axes, kwarg_axes),
+            )(keys, args, kwargs)
             # Keep the sampler convention `sample_shape + batch + event`: the lanes
             # are batch axes, so a later sample_shape extension still prepends.
             return jnp.moveaxis(lanes, 0, len(sample_shape))
 
-        return run(key, *args)
+        return run(key, args, kwargs)
 
     return lanewise
 
@@ -936,15 +933,34 @@ class VmapBatchHandler:
         # Compute new sample shape
         n = static_dim_length(batch_axes, vector_args)
 
+        # Recover the site's keyword parameters (the flat arguments follow
+        # `in_tree`), so that keyword parameters stay keyword parameters.
+        if params.get("yes_kwargs"):
+            num_consts = params.get("num_consts", 0)
+            site_args, site_kwargs = jtu.tree_unflatten(
+                params["in_tree"], vector_args[num_consts:]
+            )
+            arg_axes, kwarg_axes = jtu.tree_unflatten(
+                params["in_tree"], batch_axes[num_consts:]
+            )
+        else:
+            # Positional parameters are passed on as their flat leaves, as before.
+            (site_args, site_kwargs), (arg_axes, kwarg_axes) = (
+                (vector_args, {}),
+                (batch_axes, {}),
+            )
+
         if n is not None:
             # Some parameter carries the mapped axis (at any position, possibly with
             # per-lane shapes of differing rank): sample lane by lane, each lane with
             # its own key and its own slice of the parameters.  The lanes follow the
             # site's own sample_shape in the result.
             new_config = self.config.with_keyful_sampler(
-                _lanewise_sampler(self.config.keyful_sampler, n, batch_axes)
+                _lanewise_sampler(
+                    self.config.keyful_sampler, n, tuple(arg_axes), dict(kwarg_axes)
+                )
             )
-            result = create_sample_primitive(new_config)(*vector_args)
+            result = create_sample_primitive(new_config)(*site_args, **site_kwargs)
             return (result,), (len(self.config.sample_shape),)
 
         outer_batch_dim = self._compute_outer_batch_dim(n, axis_size)
@@ -952,7 +968,7 @@ class VmapBatchHandler:
 
         # Create new sampler with updated sample shape
         new_config = self.config.with_sample_shape(new_sample_shape)
-        result = create_sample_primitive(new_config)(*vector_args)
+        result = create_sample_primitive(new_config)(*site_args, **site_kwargs)
 
         # Return with appropriate output axes
         out_axes = (0 if n or axis_size else None,)
